@@ -802,3 +802,44 @@ def rule_tolerance_exponent(ctx, cfg='prod-all'):
         ok = len(found) >= 1 and all(sorted(sh) == want for _, sh in found)
         yield Ob('RF-Q', '%s#tolerance-exponent' % entry, ok, 'the tolerance is 2^(l + t + floor(T/2) + 1) * sqrt(b - a) on both bounds', prog.bodies[entry].span,
                  fact=found[:4], expected=want)
+
+
+# ---------------------------------------------------------------------------------- C16: the honest prover refuses values outside the interval
+def rule_prover_refuses_out_of_range(ctx, cfg='prod-all'):
+    """Boudot's decomposition x - a' = x1^2 + x2, b' - x = y1^2 + y2 exists only for a' <= x <= b'.  The prover refuses other values because
+    both differences go through an integer square root (which aborts on a negative operand) on every path: each square-root call whose
+    operand is computed from the committed value must dominate every return of the function it sits in, and so must the call chain that leads
+    to it from proof_of_tolerance_specific.  A path that returns a decomposition without taking the root lets the honest prover emit a proof for
+    a value outside the interval."""
+    from flow import walk
+    prog, eng = ctx.prog(cfg), ctx.eng(cfg)
+    root = RP + 'proof_of_tolerance_specific'
+    if root not in prog.bodies:
+        raise AnchorMissing(root)
+    kx = prog.bodies[root].param_index('x')
+    if kx is None:
+        raise AnchorMissing(root + ' parameter x')
+    n = 0
+    for fr in walk(eng, root, include_closures=False):
+        if fr.path != root and not fr.path.startswith('cl03::range_proof::'):
+            continue
+        for bi, t in fr.body.calls():
+            cal = t.get('callee') or ''
+            if not (cal.startswith('rug::Integer::') and '::sqrt' in cal) or not t['args']:
+                continue
+            atoms = fr.lift(fr.fd.read_op(t['args'][0]))
+            if not any(strip(a)[0] == 'p' and strip(a)[1] == kx for a in atoms):
+                continue
+            ok = all(fr.body.dominates(bi, e) for e in fr.body.exits)
+            where = [fr.path.split('::')[-1]]
+            f = fr
+            while ok and f.parent is not None:
+                cb = [bj for bj, tj in f.parent.body.calls() if tj is f.call]
+                ok = bool(cb) and all(f.parent.body.dominates(cb[0], e) for e in f.parent.body.exits)
+                f = f.parent
+                where.append(f.path.split('::')[-1])
+            yield Ob('RF-Q', '%s#sqrt-on-every-path[%d]' % (root, n), ok,
+                     'the square root of a difference with the committed value is taken on every path to a return (negative differences abort the prover)',
+                     '%s L%s' % (fr.body.file(), t['line']), fact={'callee': cal, 'in': list(reversed(where))}, expected='dominates every return')
+            n += 1
+    yield Ob('RF-Q', '%s#sqrt-census' % root, n >= 2, 'square roots of x - a\' and b\' - x found', prog.bodies[root].span, fact=n, expected='>= 2', nontrivial=False)
